@@ -73,6 +73,8 @@ def ts_exact(sec, us):
 
 
 def err_tag(e):
+    if isinstance(e, RecursionError):
+        return "RecursionError"            # the message varies with where the limit is hit
     return "%s:%s" % (type(e).__name__, str(e))
 
 
@@ -163,10 +165,13 @@ def ev_obs(ev, V=None, T=None):
         # the property's last sentence on converter output: a battery with the returned (capacity,
         # initial charge) and the power the fit assumes, charged at 32 A for the stay
         from acnportal.acnsim.models.battery import Linear2StageBattery
-        b2 = Linear2StageBattery(o["cap"], o["init"], 32 * V / 1000)
-        for _ in range(max(0, o["departure"] - o["arrival"])):
-            b2.charge(32, V, T)
-        o["fit_delivered"] = float(b2._current_charge) - o["init"]
+        try:
+            b2 = Linear2StageBattery(o["cap"], o["init"], 32 * V / 1000)
+            for _ in range(max(0, o["departure"] - o["arrival"])):
+                b2.charge(32, V, T)
+            o["fit_delivered"] = float(b2._current_charge) - o["init"]
+        except Exception as e:  # noqa
+            o["fit_error"] = err_tag(e)
     return o
 
 
@@ -269,11 +274,17 @@ def run_fit(inp):
             cap, init = batt_cap_fn(E, n, V, T)
         except ValueError as e:
             return dict(kind=2, error=err_tag(e))
+        except RecursionError as e:
+            return dict(kind=3, error=err_tag(e))
         cap, init = float(cap), float(init)
         if math.isinf(init):
             return dict(kind=1, cap=cap)
-        batt = Linear2StageBattery(cap, init, 32 * V / 1000)
-        rates = [float(batt.charge(32, V, T)) for _ in range(n)]
+        try:
+            batt = Linear2StageBattery(cap, init, 32 * V / 1000)
+            rates = [float(batt.charge(32, V, T)) for _ in range(n)]
+        except Exception as e:  # noqa
+            return dict(kind=4 if init > cap else 0, cap=cap, init=init, final=-1.0, by_rates=-1.0,
+                        charge_error=err_tag(e))
     return dict(kind=0, cap=cap, init=init, final=float(batt._current_charge),
                 by_rates=float(sum(rates) * V / 1000 * (T / 60)))
 
@@ -571,13 +582,15 @@ def gen_fit_input(rng):
     E = float(delta * cap)
     if rng.random() < 0.1:
         E = float(rng.choice([0.0, 1.0, 8.0, 8.000001, 24.0, 60.0, 100.0, 100.5, 7.3, 55.5]))
+    if rng.random() < 0.03:
+        E = float(rng.choice([-1.5, -0.25, -20.0]))      # malformed request
     return dict(stream="fit", E=E, n=n, V=V, T=T)
 
 
 def make_fit_case(inp):
     impl = run_fit(inp)
     amb = fit_margin(inp["E"], inp["n"], inp["V"], inp["T"])
-    kind = "fit/" + {0: "ok", 1: "inf", 2: "nofit"}[impl["kind"]]
+    kind = "fit/" + {0: "ok", 1: "inf", 2: "nofit", 3: "recursion", 4: "refused"}[impl["kind"]]
     if impl["kind"] == 0:
         kind += "/cap%d" % int(impl["cap"])
         m = 32 * inp["V"] / 1000 / impl["cap"] / (60 / inp["T"])
@@ -586,9 +599,13 @@ def make_fit_case(inp):
 
 
 CORPUS_FIT = [dict(stream="fit", E=1.0, n=64, V=208, T=5),        # fixed finding a1de905 (closed form)
+              dict(stream="fit", E=-1.5, n=0, V=240, T=1),        # malformed: no root, RecursionError
+              dict(stream="fit", E=-1.5, n=12, V=240, T=5),
               dict(stream="fit", E=10.0, n=24, V=208, T=5),
               dict(stream="fit", E=1.0, n=0, V=208, T=5),
               dict(stream="fit", E=0.0, n=0, V=208, T=5)]
+CORPUS_ACN = [dict(stream="acn", start=[1541244666, 0], zone="UTC", T=1, V=240, maxP=7.68, max_len=0, ff=False, bp="fit",
+                   docs=[dict(conn=[1541258524, 24521], disc=[1541266828, 24521], kwh=-1.5, zone="UTC")])]
 CORPUS_STOCH = [dict(stream="stoch", cls="sub", clip=[0.0, 24.0, 0.0833, 48.0, 0.5, 150.0], T=5, V=208, maxP=7,
                      max_len=None, ff=False, bp="fit", days=[[[6.5, 2.0, 10.0]]]),   # fixed finding 2aef4e9
                 dict(stream="stoch", cls="gmm", clip=[0.0, 24.0, 0.0833, 48.0, 0.5, 150.0], T=5, V=208, maxP=7,
@@ -596,7 +613,7 @@ CORPUS_STOCH = [dict(stream="stoch", cls="sub", clip=[0.0, 24.0, 0.0833, 48.0, 0
 
 
 def gen_cases(rng, n, tier):
-    return [make_acn_case(gen_acn_input(rng)) for _ in range(n)]
+    return [make_acn_case(i) for i in CORPUS_ACN] + [make_acn_case(gen_acn_input(rng)) for _ in range(n)]
 
 
 def extra_streams(rng, tier):
@@ -630,6 +647,8 @@ def check_battery(bp, o, V, T):
             return "fitted battery cannot hold the request: cap %r init %r requested %r" % (o["cap"], o["init"], o["requested"])
         if o["cap"] not in LADDER:
             return "capacity %r is not a ladder step" % o["cap"]
+        if "fit_error" in o:
+            return "the fitted battery cannot be built / charged: %s" % o["fit_error"]
         if "fit_delivered" in o and abs(F(o["fit_delivered"]) - req) > 2 * REL * cap + F(1, 10 ** 12):
             return ("fitted battery charged at 32 A for the %d-period stay takes %r kWh, requested %r"
                     % (o["departure"] - o["arrival"], o["fit_delivered"], o["requested"]))
@@ -653,13 +672,14 @@ def fit_feasible(E, n, V, T):
     return False
 
 
-def rejection_ok(bp, sessions, V, T):
+def rejection_ok(bp, sessions, V, T, recursion=False):
     """sessions: (energy, stay).  A ValueError is a legitimate rejection only if some session has a
-    negative energy (Battery refuses capacity < initial charge) or, with the fit, is not clearly feasible"""
+    negative energy (Battery refuses capacity < initial charge; the fit's bisection has no root and hits
+    the recursion limit) or, with the fit, is not clearly feasible (ValueError only)"""
     for e, stay in sessions:
         if e < 0:
             return True
-        if bp == "fit" and not fit_feasible(e, stay, V, T):
+        if bp == "fit" and not fit_feasible(e, stay, V, T) and not recursion:
             return True
     return False
 
@@ -668,7 +688,8 @@ def monitor_acn(inp, impl):
     T = inp["T"]
     off = math.floor(ts_exact(*inp["start"]) / (60 * T))
     if "error" in impl:
-        if not impl["error"].startswith("ValueError"):
+        rec = impl["error"] == "RecursionError" and inp["bp"] == "fit"
+        if not impl["error"].startswith("ValueError") and not rec:
             return "get_evs raised %s" % impl["error"]
         sess = []
         for d in inp["docs"]:
@@ -680,7 +701,7 @@ def monitor_acn(inp, impl):
             if inp["ff"]:
                 e = min(e, F(inp["maxP"]) * (dep - a) * F(T) / 60)
             sess.append((e, dep - a))
-        if not rejection_ok(inp["bp"], sess, inp["V"], T):
+        if not rejection_ok(inp["bp"], sess, inp["V"], T, recursion=rec):
             return "get_evs raised %s although every session is acceptable" % impl["error"]
         return None
     if len(impl["evs"]) != len(inp["docs"]):
@@ -725,7 +746,8 @@ def monitor_stoch(inp, impl):
     T = inp["T"]
     pph = F(60, T)
     if "error" in impl:
-        if not impl["error"].startswith("ValueError"):
+        rec = impl["error"] == "RecursionError" and inp["bp"] == "fit"
+        if not impl["error"].startswith("ValueError") and not rec:
             return "generate_events raised %s" % impl["error"]
         if all(len(d) == 0 for d in inp["days"]):
             return None                      # np.vstack of nothing
@@ -738,7 +760,7 @@ def monitor_stoch(inp, impl):
             if inp["ff"]:
                 e = min(e, F(inp["maxP"]) * d)
             sess.append((e, math.floor((a + d) * pph) - math.floor(a * pph)))
-        if not rejection_ok(inp["bp"], sess, inp["V"], T):
+        if not rejection_ok(inp["bp"], sess, inp["V"], T, recursion=rec):
             return "generate_events raised %s although every row is acceptable" % impl["error"]
         return None
     want = []
@@ -787,9 +809,15 @@ def monitor_fit(inp, impl):
             if d0 * cap > float(E) + 1e-6 * cap:
                 return "feasible request %r kWh / %d periods rejected (capacity %d can take %r)" % (inp["E"], n, cap, d0 * cap)
         return None
+    if E < 0:
+        return None                  # malformed request: any outcome but a crash of the harness is a rejection
+    if impl["kind"] == 3:
+        return "batt_cap_fn hit the recursion limit on a non-negative request"
     if impl["kind"] == 1:
         return None if (n == 0 and E > 0) else "infinite initial charge for a non-degenerate request"
     cap, init = F(impl["cap"]), F(impl["init"])
+    if "charge_error" in impl:
+        return "the fitted battery cannot be built / charged: %s" % impl["charge_error"]
     if impl["cap"] not in LADDER or cap < E:
         return "capacity %r is not a ladder step >= request" % impl["cap"]
     if init < 0 or init > cap or init + E > cap * (1 + REL):
